@@ -47,11 +47,6 @@ def run(ctx):
             and all(isinstance(s, ast.Assign) and len(s.targets) == 1 and isinstance(s.targets[0], ast.Name) and isinstance(s.value, ast.Constant) for s in body[:-1])):
         raise AnalysisError("whitespace Filter.__iter__ is not `<constant initialisations>; for token in base.Filter.__iter__(self): ...`")
     init_env = {s.targets[0].id: s.value.value for s in body[:-1]}
-    aug = {a.target.id for a in ast.walk(loops[0]) if isinstance(a, ast.AugAssign) and isinstance(a.target, ast.Name)}
-    counters = [k for k, v in init_env.items() if v == 0 and not isinstance(v, bool) and k in aug]
-    if len(counters) != 1:
-        raise AnalysisError("whitespace filter: the preserve-depth counter was not identified (%s)" % counters)
-    counter = counters[0]
     tok = loops[0].target.id
     preserve_set = ce.eval(cls.assigns["spacePreserveElements"], mod)
     import re as _re
@@ -77,10 +72,9 @@ def run(ctx):
     loop_body = [inline_simple_calls(mod, s, cls=cls) for s in loops[0].body]
     html_ns = ce.const("constants.py", "namespaces")["html"]
 
-    def run_stream(tokens, depth):
+    def run_stream(tokens):
         """feed the tokens through the loop body; returns ([(identity index or None, snapshot)], final env) or raises"""
         env = dict(init_env)
-        env[counter] = depth
         env["self"] = Opaque("self")
         outs = []
 
@@ -111,9 +105,13 @@ def run(ctx):
         return _re.sub("[\t\n\x0c\r ]+", " ", text)
 
     def judge(tokens, depth, key):
+        # the preserve depth is produced by real tokens: `depth` start tags in front (the first one a preserving element), and
+        # a probe behind (`a  b`) shows in which state the filter is left
+        prefix = [{"type": "StartTag", "name": ("pre" if k == 0 else "div"), "namespace": html_ns, "data": {}} for k in range(depth)]
+        tokens = prefix + list(tokens) + [{"type": "Characters", "data": "m  n"}]
         originals = [dict(t) for t in tokens]
         try:
-            outs, env = run_stream(tokens, depth)
+            outs, env = run_stream(tokens)
         except AnalysisError as e:
             r.idiom("R17.1", False, key, f.where, "whitespace filter not decidable for this stream (%s)" % str(e)[:90])
             return
@@ -122,7 +120,7 @@ def run(ctx):
             return
         problems = []
         # expected: non-text tokens once each, in order, unchanged; between them the text, collapsed across token boundaries
-        d = depth
+        d = 0
         exp = []        # list of ("tok", index) / ("text", string)
         for k, t in enumerate(originals):
             ty = t["type"]
@@ -158,10 +156,8 @@ def run(ctx):
         norm_ = lambda seq: [x for x in seq if not (x[0] == "text" and x[1] == "")]      # noqa: E731
         if norm_(got) != norm_(exp) and not problems:
             problems.append("output %s, expected %s" % (norm_(got), norm_(exp)))
-        if env.get(counter) != d:
-            problems.append("preserve depth %s -> %s (expected %s)" % (depth, env.get(counter), d))
         r.check("R17.1", not problems, key, f.where, "whitespace filter, %s: %s" % (key, "; ".join(problems)), {"case": key},
-                detail={"case": key, "depth_after": env.get(counter)})
+                detail={"case": key})
     # namespace of the element token: the HTML namespace, None (trees built with namespaceHTMLElements=False) or absent
     # (hand-made streams); whether a *foreign* element called pre preserves white space is not part of the statement
     NS_CASES = (("html", html_ns), ("none", None), ("absent", "<absent>"))
@@ -187,6 +183,18 @@ def run(ctx):
                       "adjacent depth=%d %s %r + %s %r" % (depth, a[0], a[1], b[0], b[1]))
     for a, b, c in ((("Characters", "a "), ("SpaceCharacters", " "), ("Characters", " b")), (("SpaceCharacters", " "), ("SpaceCharacters", " "), ("SpaceCharacters", " "))):
         judge([{"type": x[0], "data": x[1]} for x in (a, b, c)], 0, "adjacent depth=0 %r + %r + %r" % (a[1], b[1], c[1]))
+    def ST(nm):
+        return {"type": "StartTag", "name": nm, "namespace": html_ns, "data": {}}
+
+    def ET(nm):
+        return {"type": "EndTag", "name": nm, "namespace": html_ns}
+
+    def TX(d_):
+        return {"type": "Characters", "data": d_}
+    for outer, inner in (("pre", "pre"), ("pre", "textarea"), ("textarea", "b"), ("pre", "div")):
+        judge([ST(outer), TX("a  b"), ST(inner), TX("c  d"), ET(inner), TX("x   y"), ET(outer), TX("p  q")], 0,
+              "nested <%s><%s>: text after the inner end tag is still preserved, text after the outer one is not" % (outer, inner))
+    judge([ET("pre"), TX("a  b")], 0, "stray </pre> outside a preserved element")
     for mid in ({"type": "StartTag", "name": "b", "namespace": html_ns, "data": {}}, {"type": "Comment", "data": "c"}, {"type": "EndTag", "name": "b", "namespace": html_ns}):
         judge([{"type": "Characters", "data": "a "}, mid, {"type": "Characters", "data": " b"}], 0, "across %s: 'a ' + ' b'" % mid["type"])
         judge([{"type": "SpaceCharacters", "data": " "}, dict(mid), {"type": "SpaceCharacters", "data": " "}], 0, "across %s: ' ' + ' '" % mid["type"])
